@@ -220,7 +220,10 @@ class Conc:
         kids = self.seq(n["ch"])
         if k == "g":
             a = [f'id="n{i}"'] if not n["href"] else [f'id="r{n["href"]}"', (f'class="rc{n["href"]} n{i}"' if n["href"] % 2 == 0 else f'class="n{i}"')]
-            a += [f'{x}="{("x" * v) if self.strmode else v}"' for x, v in n["loc"]]
+            # an attribute local may be given by an expression over the OUTER variable of its own name
+            # (x="{{$x * 0 + 1}}": evaluated in the enclosing scope, before the group binds x)
+            own = (not self.strmode) and self.rec.get("iv", -1) >= 0 and self.rnd.random() < 0.3
+            a += [f'{x}="{{{{${x} * 0 + {v}}}}}"' if own else f'{x}="{("x" * v) if self.strmode else v}"' for x, v in n["loc"]]
             if n["rd"] != "-" or n["val"] >= 0:
                 # the group's own probe; written after the locals or before them
                 pr = [f'data-v="${n["rd"]}"' if n["rd"] != "-" else f'data-v="{("x" * n["val"]) if self.strmode else n["val"]}"']
